@@ -46,6 +46,8 @@ var sfOptionsTypedef = []sfField{
 	{"i32", ""}, {"i32", "1"}, {"E", "E.A"},
 	{"S0", ""}, {"S0", "{}"}, {"S1", ""}, {"S1", "{}"},
 	{"A0", ""}, {"A0", "{}"}, {"A1", ""}, {"A1", "{}"},
+	// container-typed fields whose element type is another definition, with a non-empty default
+	{"list<E>", "[1]"}, {"list<S1>", "[{}]"},
 }
 
 // fileOf says where a name lives under the layout.
@@ -92,7 +94,9 @@ func (p *sfProg) render() map[string]string {
 		var fs []string
 		for fi, fd := range p.Fields[si] {
 			t := fd.Type
-			if t != "i32" && t != "double" {
+			if strings.HasPrefix(t, "list<") {
+				t = "list<" + ref(f, t[5:len(t)-1]) + ">"
+			} else if t != "i32" && t != "double" {
 				t = ref(f, t)
 			}
 			d := ""
@@ -136,6 +140,9 @@ func (p *sfProg) render() map[string]string {
 }
 
 func (p *sfProg) typeRepr(t string) string {
+	if strings.HasPrefix(t, "list<") {
+		return "list<" + p.typeRepr(t[5:len(t)-1]) + ">"
+	}
 	switch t {
 	case "i32", "double":
 		return t
@@ -167,6 +174,17 @@ func (p *sfProg) value(si, fi int, stack map[[2]int]bool) (string, bool) {
 		return "int:7", true
 	case "E.A":
 		return fmt.Sprintf("item:%s:E.A=1", resolve.Path(p.fileOf("E"))), true
+	case "[1]":
+		return fmt.Sprintf("[item:%s:E.A=1]", resolve.Path(p.fileOf("E"))), true
+	case "[{}]":
+		key := [2]int{si, fi}
+		if stack[key] {
+			return "", false
+		}
+		stack[key] = true
+		defer delete(stack, key)
+		v, ok := p.structValue(1, stack)
+		return "[" + v + "]", ok
 	case "{}":
 		key := [2]int{si, fi}
 		if stack[key] {
@@ -242,8 +260,8 @@ func (r *runner) structAlphabet(opts []sfField, typedefs bool) {
 			for fi := 0; fi < 2; fi++ {
 				p.Fields[si][fi] = opts[c%n]
 				c /= n
-				if p.Fields[si][fi].Type[0] == 'A' {
-					needed = true // the typedef alphabet only adds programs that use a typedef
+				if t := p.Fields[si][fi].Type[0]; t == 'A' || t == 'l' {
+					needed = true // the second alphabet only adds programs that use a typedef or a container
 				}
 			}
 		}
@@ -251,7 +269,7 @@ func (r *runner) structAlphabet(opts []sfField, typedefs bool) {
 		hasStruct := false
 		for si := 0; si < 2; si++ {
 			for fi := 0; fi < 2; fi++ {
-				if t := p.Fields[si][fi].Type[0]; t == 'S' || t == 'A' {
+				if t := p.Fields[si][fi].Type[0]; t == 'S' || t == 'A' || t == 'l' {
 					hasStruct = true
 				}
 			}
@@ -367,3 +385,35 @@ func (r *runner) structOne(p sfProg) {
 }
 
 var _ = ev.Main
+
+// StructPrograms yields a sub-family of the struct-default programs for C10
+// (deterministic generation): fields over {E = E.A, S0, S1 = {}, A1 = {}, list<E> =
+// [1]} (thorough: also S0 = {}, list<S1> = [{}]), single file (thorough: also two
+// files), reference-valid programs only.
+func StructPrograms(quick bool, yield func(files map[string]string, desc string)) {
+	opts := []sfField{{"E", "E.A"}, {"S0", ""}, {"S1", "{}"}, {"A1", "{}"}, {"list<E>", "[1]"}}
+	layouts := 1
+	if !quick {
+		opts = append(opts, sfField{"S0", "{}"}, sfField{"list<S1>", "[{}]"})
+		layouts = 2
+	}
+	n := len(opts)
+	for code := 0; code < n*n*n*n; code++ {
+		var p sfProg
+		p.Typedefs = true
+		c := code
+		for si := 0; si < 2; si++ {
+			for fi := 0; fi < 2; fi++ {
+				p.Fields[si][fi] = opts[c%n]
+				c /= n
+			}
+		}
+		if _, valid := p.expect(); !valid {
+			continue
+		}
+		for l := 0; l < layouts; l++ {
+			p.Layout = l
+			yield(p.render(), fmt.Sprintf("struct-defaults:%v:layout%d", p.Fields, l))
+		}
+	}
+}
